@@ -85,7 +85,30 @@ def run(rep):
 
     def nontrivial(op, impl):
         return impl not in ("err", "bad-op", "none", "multi", "nonnum")
-    bad_spec, bad_model = V.correspondence(rep, "rt", out, stats, keyfn=lambda op: keys.get(op, op), nontrivial=nontrivial)
+
+    # one correspondence record per class of value, so that the failing inputs reported for a
+    # broken tree name one (shortest) input per class instead of three of the same kind
+    def cls(op):
+        t = op.split(" ")
+        k = t[1]
+        if k in ("l", "j"):
+            return "literal-spelling"
+        if k == "k":
+            return "literal-text"
+        if k == "e":
+            return "jsonlike-eval"
+        return {"c": "char", "s": "string", "r": "string", "y": "symbol", "d": "float", "e": "float", "i": "int", "u": "int",
+                "n": "atom", "t": "atom", "f": "atom", "h": "jsonlike-print"}.get(t[2], "structure")
+    groups = {}
+    for r in out:
+        groups.setdefault(cls(r[0]), []).append(r)
+    n_before = len(rep.violations)
+    first = True
+    for name in sorted(groups):
+        V.correspondence(rep, "rt/" + name, groups[name], stats if first else {}, keyfn=lambda op: keys.get(op, op),
+                         nontrivial=nontrivial, max_report=1)
+        first = False
+    found_failing_input = any(not suffix for _, suffix in rep.violations[n_before:])
     kinds = {}
     for op, impl, model, spec in out:
         k = op.split(" ", 2)[1]
@@ -103,4 +126,4 @@ def run(rep):
                             "integer grid ±2^k, ±2^k±1, ±10^k; floats: every 16th binade (thorough: every binade) with its neighbours, powers of ten, in both formats; "
                             "every pair of 15 atoms as list, array, dotted pair; every spelling up to length 4 (thorough: 5) over `-+0179abefEFxoUL_.` starting with a sign, digit or dot; "
                             "random nested values to depth 6. Non-trivial = the implementation answered with data")
-    V.proof_break_resolution(rep, bool(bad_spec))
+    V.proof_break_resolution(rep, found_failing_input)
